@@ -729,6 +729,18 @@ func runC19(ctx *Ctx) *Result {
 					}
 					lquads = append(lquads, c19Quad{cfg.cwd, top, fn, to}, c19Quad{cfg.cwd, top, dir, to})
 				}
+				// targets derived from the line's own directory: the directory itself in several spellings
+				// (trailing slash, "/.", doubled slash), entries below it, its parent and siblings
+				d := dir
+				if d == "" {
+					d = "."
+				}
+				fn := d + "/Makefile"
+				parent := path.Dir(d)
+				for _, to := range []string{d, d + "/", d + "/.", d + "/./", d + "//", d + "/sub", d + "/sub/", d + "//sub", d + "/distinfo", d + "/../" + path.Base(d), d + "/../" + path.Base(d) + "/",
+					parent, parent + "/", parent + "/other", parent + "/other/"} {
+					lquads = append(lquads, c19Quad{cfg.cwd, top, fn, to})
+				}
 			}
 		}
 	}
